@@ -38,7 +38,7 @@ SPEC = dict(
          "answers SKIP, oracles only); radprod / radprod-in-sum = products of symbols with radicals or symbolic powers "
          "whose bases contain products / integer powers of sums, paired with the same product over the bases expanded by "
          "the harness (op rpair: eq of the two expansions, completeness inside the bases, idempotence, numeric value; "
-         "Lean SKIP); pair-equal / pair-perturbed = identity decision; multinomial; fixed* = "
+         "Lean SKIP); surdpow* = powers n >= 3 of sums with a numeric-surd term such as sqrt(2)*x (rexpand, numeric oracle); pair-equal / pair-perturbed = identity decision; multinomial; fixed* = "
          "test_arit shapes and the minimal inputs of the defects. impl_stats: dict_judged, dict_terms_total, "
          "value_points_judged, numeric_points_judged, pair_equal_polynomials, pair_different_polynomials.",
     not_covered=[
